@@ -21,13 +21,13 @@ theorem chan_functional {c : Cfg} {s : State} (hr : Reach c s) (a : Alloc) (ha :
 
 /-- a number outside 0x4000–0x7FFF is never bound: the request is answered 400 -/
 theorem invalid_number_rejected (c : Cfg) (lid : Nat) (a : Alloc) (n : Nat) (peer : Attr Addr) (h : chanValid n = false) :
-    bindChecks c lid a (.val n) peer = .error 400 := by
+    bindChecks c k a (.val n) peer = .error 400 := by
   simp [bindChecks, h]
 
 /-- binding a bound number to another peer, or a bound peer to another number, is answered 400 -/
 theorem conflict_400 (c : Cfg) (lid : Nat) (a : Alloc) (n : Nat) (p : Addr) (hv : chanValid n = true)
-    (hf : famOK p.ip a.fam = true) (hg : granted c lid p.ip = true) (hc : bindConflict a n p = true) :
-    bindChecks c lid a (.val n) (.val p) = .error 400 := by
+    (hf : famOK p.ip a.fam = true) (hg : granted c k p.ip = true) (hc : bindConflict a n p = true) :
+    bindChecks c k a (.val n) (.val p) = .error 400 := by
   simp [bindChecks, hv, hf, hg, hc]
 
 /-- what "conflict" means: some stored binding has the number with another peer or the peer with another number -/
@@ -105,7 +105,7 @@ theorem emitted_numbers_valid {c : Cfg} {s : State} (hr : Reach c s) (op : Op) (
 def cfg0 : Cfg :=
   { permT := 300 * sec, chanT := 600 * sec, lifeT := 3600 * sec, maxLife := 3600 * sec, rtpMTU := 1600
     inMTU := 1600, bindT := 30 * sec, resvT := 30 * sec, strict := false, hasAuth := true, hasQuota := false
-    relay4 := ⟨false, 1⟩, relay6 := ⟨true, 1⟩, lis := [⟨false, 1, false, []⟩] }
+    relay4 := ⟨false, 1⟩, relay6 := ⟨true, 1⟩, lis := [⟨false, 1, false, [], []⟩] }
 def okCred : Cred := ⟨true, true, true, true, true, true, true, "alice"⟩
 def k0 : Key := ⟨0, ⟨⟨false, 7⟩, 4000⟩⟩
 def hist0 : List Op := [
